@@ -345,6 +345,10 @@ def mon_frame(ctx, res):
         yield (f'{kind}:{note}:unreadable-after', f'{_case_str(case)}: running order unreadable / without roCreate after the merge')
         return
     db, da, moved = _named_sets(ctx)
+    if obs.exc is not None:
+        # a message that is refused must not have modified, removed or displaced anything - in particular
+        # not the elements its resolvable references name (second sentence of the property)
+        db, da, moved = set(), set(), []
     sb = sa = ()
     if kind == 'RunningOrderReplace':
         # the content of roCreate is what the message replaces; WHERE roCreate sits in the envelope is frame
@@ -773,12 +777,37 @@ class _NullRes:
 
 
 # ================================================================ C13
+def _merge_direct(ns, ro, msg):
+    """`msg.merge(ro)` - the documented method behind `ro + msg` - observed like step_live."""
+    from . import target
+    import warnings as _w
+    o = target.Obs()
+    try:
+        o.before = str(ro)
+    except Exception:  # noqa
+        pass
+    with _w.catch_warnings(record=True) as w:
+        _w.simplefilter('always')
+        try:
+            msg.merge(ro)
+        except Exception as e:  # noqa
+            o.exc, o.exc_msg, o.phase = target.exc_name(ns, e), str(e), 'merge'
+            o.merge_error = isinstance(e, ns.exc.MosMergeError)
+    o.warns, o.other_warns = target.split_warnings(ns, w)
+    try:
+        o.after = str(ro)
+    except Exception:  # noqa
+        o.after = None
+    return o
+
+
 class Independence:
     """Three-step histories per message K and follow-up edit E (DESIGN C13)."""
 
-    def __init__(self, followup_harness, per_kind=4):
+    def __init__(self, followup_harness, per_kind=4, direct=False):
         self.fh = followup_harness
         self.per_kind = per_kind
+        self.direct = direct      # merge through msg.merge(ro) instead of `ro + msg`
 
     def __call__(self, ctx, res):
         from . import target
@@ -794,10 +823,21 @@ class Independence:
                 raise RuntimeError(f'harness: text does not parse: {e}')
             return o
 
+        if self.direct:
+            if ctx.view.completed:
+                return      # the completed guard lives in `+`; a direct merge into a completed running order is outside the claim
+            kind = 'direct-merge:' + kind
+
+            def MERGE(ro_, msg_):
+                return _merge_direct(ns, ro_, msg_)
+        else:
+            def MERGE(ro_, msg_):
+                return target.step_live(ns, ro_, msg_)
+
         m = P(K)
         snap = str(m)
         ro1 = P(s)
-        o1 = target.step_live(ns, ro1, m)
+        o1 = MERGE(ro1, m)
         res.extra['histories'] += 1
         if str(m) != snap:
             yield (f'{kind}:message-modified-by-merge',
@@ -806,8 +846,8 @@ class Independence:
             return
         # (b) same object into a second running order == fresh copy into it
         ro2, ro2f = P(s), P(s)
-        ob = target.step_live(ns, ro2, m)
-        of = target.step_live(ns, ro2f, P(K))
+        ob = MERGE(ro2, m)
+        of = MERGE(ro2f, P(K))
         if (ob.after, ob.exc, ob.warns) != (of.after, of.exc, of.warns):
             yield (f'{kind}:reuse-differs-from-fresh',
                    f'{_case_str(ctx.case)}: merging the same message object a second time gives exc={ob.exc} warns={list(ob.warns)}, '
@@ -830,8 +870,8 @@ class Independence:
             m = P(K)
             snap = str(m)
             ro1, ro2 = P(s), P(s)
-            target.step_live(ns, ro1, m)
-            target.step_live(ns, ro2, m)
+            MERGE(ro1, m)
+            MERGE(ro2, m)
             snap2 = str(ro2)
             oe = target.step_live(ns, ro1, eobj)
             if oe.after == o1.after:
@@ -851,8 +891,8 @@ class Independence:
                 return
             # (d) re-using m after the edit == fresh copy
             ro3, ro3f = P(s), P(s)
-            o3 = target.step_live(ns, ro3, m)
-            o3f = target.step_live(ns, ro3f, P(K))
+            o3 = MERGE(ro3, m)
+            o3f = MERGE(ro3f, P(K))
             if (o3.after, o3.exc, o3.warns) != (o3f.after, o3f.exc, o3f.warns):
                 yield (f'{kind}:then:{E["kind"]}:reuse-after-edit-differs',
                        f'{_case_str(ctx.case)} then {_case_str(E)}: merging the same message object again differs from a fresh copy')
@@ -860,8 +900,8 @@ class Independence:
             # the message merged again into the edited running order itself
             ro1f = P(oe.after) if oe.after else None
             if ro1f is not None:
-                o4 = target.step_live(ns, ro1, m)
-                o4f = target.step_live(ns, ro1f, P(K))
+                o4 = MERGE(ro1, m)
+                o4f = MERGE(ro1f, P(K))
                 if (o4.after, o4.exc, o4.warns) != (o4f.after, o4f.exc, o4f.warns):
                     yield (f'{kind}:then:{E["kind"]}:remerge-into-same-differs',
                            f'{_case_str(ctx.case)} then {_case_str(E)} then the same message object again: differs from a fresh copy '
